@@ -269,17 +269,22 @@ func C01(run *mon.Run) {
 					cs = append(cs, cand{b: s, kind: f.kind})
 				}
 			}
+			pk3 := jacobianForm(pk, rr)
 			for ci, c := range cs {
 				usePk := pk
-				if ci%2 == 1 {
+				if ci%3 == 1 {
 					usePk = pk2
+				} else if ci%3 == 2 {
+					usePk = pk3
 				}
 				expect := bytes.Equal(c.b, encE)
 				verifyExpect(run, "C01", usePk, c, t.msg, h, expect, ctx)
 				run.Shape(fmt.Sprintf("%s|%s|%s", t.key.name, t.h.name, c.kind))
 			}
-			// the reference signature must verify under both key objects
+			// the reference signature must verify under every key object holding the point
 			verifyExpect(run, "C01", pk2, cand{b: encE, kind: "E"}, t.msg, h, true, ctx)
+			verifyExpect(run, "C01", pk3, cand{b: encE, kind: "E"}, t.msg, h, true, ctx+" jacobian-form-key")
+			verifyExpect(run, "C01", pk, cand{b: encE, kind: "E"}, t.msg, h, true, ctx)
 			// identity keys: everything is false, including E and the infinity signature
 			for _, ik := range ids {
 				for ci, c := range cs {
